@@ -1,12 +1,12 @@
 #!/bin/bash
 # runs the quick check of every claimed property against /repo (writes evidence/<id>.json), validates
 cd /verif
-for p in C01 C02 C03 C04 C05 C06 C07 C08 C09 C10 C11 C13 C14 C15 C16 C18 C19 C20; do
+for p in C12 C17 C13 C14 C05 C19 C01 C02 C03 C04 C06 C07 C08 C09 C10 C11 C15 C16 C18 C19 C20; do
   s=$(date +%s)
-  ./check.sh $p quick > /tmp/regen_$p.log 2>&1
+  ./check.sh $p quick > /verif/.work/regen_$p.log 2>&1
   rc=$?
   e=$(date +%s)
-  echo "$p exit=$rc wall=$((e-s))s $(grep -c '^VIOLATION' /tmp/regen_$p.log) violations, $(grep -c '^KNOWN-FINDING' /tmp/regen_$p.log) known"
+  echo "$p exit=$rc wall=$((e-s))s $(grep -c '^VIOLATION' /verif/.work/regen_$p.log) violations, $(grep -c '^KNOWN-FINDING' /verif/.work/regen_$p.log) known"
 done
 python3-vt - <<'PY'
 import json, jsonschema, glob
